@@ -5,6 +5,7 @@ import (
 	"fmt"
 	"sort"
 	"strings"
+	"time"
 
 	mcp "trpc.group/trpc-go/trpc-mcp-go"
 	"verif.local/engine/explore"
@@ -137,6 +138,10 @@ func c10Cases(tier string) []c10Case {
 				out = append(out, c10Case{mode, []string{k, "progress"}, 7, 0, ps, 0})
 			}
 		}
+		// a tool that works for a long (virtual) time between notifications and before it returns
+		for _, reg := range []int{0, 7} {
+			out = append(out, c10Case{mode, []string{"progress", "pause", "log"}, reg, 0, "", 0}, c10Case{mode, []string{"pause", "custom", "pause"}, reg, 0, "", 0})
+		}
 		// parameter / _meta values of other Go types that encode to the same JSON
 		for _, k := range []string{"generic", "meta-only", "empty-params", "meta-typed", "meta-strmap", "meta-struct", "params-typed"} {
 			for _, reg := range []int{0, 4, 7} {
@@ -146,6 +151,9 @@ func c10Cases(tier string) []c10Case {
 	}
 	return out
 }
+
+// c10Pause is how long a "pause" step of the tool lasts on the virtual clock.
+const c10Pause = 10 * time.Minute
 
 type c10Rec struct {
 	method string
@@ -165,6 +173,10 @@ func c10Run(cfg vsched.Config, mode string, calls [][]string, reg int, pad int, 
 		r.RegisterTool(mcp.NewTool("emit"), func(ctx context.Context, req *mcp.CallToolRequest) (*mcp.CallToolResult, error) {
 			ci := int(req.Params.Arguments["call"].(float64))
 			for i, kind := range calls[ci] {
+				if kind == "pause" { // a long-running tool: nothing bounds the time between two notifications or before the result
+					vsched.Sleep(c10Pause)
+					continue
+				}
 				want, err := c10Emit(ctx, kind, ci*10+i, padS)
 				if err != nil {
 					emitErr = err
@@ -215,6 +227,14 @@ func c10Run(cfg vsched.Config, mode string, calls [][]string, reg int, pad int, 
 				results[ci], errs[ci] = TextOf(out), err
 				returned[ci] = true
 			})
+		}
+		for _, c := range calls {
+			for _, kind := range c {
+				if kind == "pause" {
+					vsched.Sleep(c10Pause + time.Minute) // virtual time passes for the callers' benefit
+					vsched.Quiesce()
+				}
+			}
 		}
 		vsched.Quiesce()
 		if emitErr != nil {
